@@ -726,6 +726,86 @@ func c17Tables(c *mc.Check) {
 	f.Done()
 }
 
+// ---- large tables: sort stability beyond the size at which sort.Slice still happens to be stable ----
+
+func c17LargeSpecs(thorough bool) []c17Spec {
+	sizes := []int{13, 16, 20}
+	if thorough {
+		sizes = []int{12, 13, 14, 15, 16, 17, 20, 23, 26}
+	}
+	var specs []c17Spec
+	for _, n := range sizes {
+		names := make([]string, n)
+		for i := range names {
+			names[i] = string(rune('A' + i))
+		}
+		step := 7
+		if n%7 == 0 {
+			step = 5
+		}
+		scr := make([]string, n)
+		rev := make([]string, n)
+		for i := range names {
+			scr[i] = names[(i*step+3)%n]
+			rev[i] = names[n-1-i]
+		}
+		for _, lay := range [][][]string{{scr, rev}, {rev, scr}, {names, scr}} {
+			for _, pp := range [][2]string{{"single", "single"}, {"incr", "incr"}, {"constant", "incr"}, {"ties", "two"}} {
+				for _, sh := range [][]float64{{1, 1}, {1, 1.25}} {
+					specs = append(specs, c17Spec{Configs: 2, Layout: lay, Units: []string{"ns/op"}, Pats: pp[:], Shift: sh})
+				}
+			}
+		}
+	}
+	return specs
+}
+
+func c17Large(c *mc.Check) {
+	specs := c17LargeSpecs(c.Thorough())
+	var settings []c17Setting
+	for _, t := range []string{"default", "none"} {
+		for _, o := range []string{"", "name", "delta", "rname", "rdelta"} {
+			for _, grp := range [][2]bool{{false, false}, {true, true}, {true, false}} {
+				settings = append(settings, c17Setting{t, 0.05, o, false, grp[0], grp[1]})
+			}
+		}
+	}
+	f := c.Family("large-tables", fmt.Sprintf("%d collections of two configurations with 12–26 benchmarks in scrambled and reversed orders (all rows insignificant so that every row ties under a delta order; equal deltas; the same names in two groups so that rows tie under a name order) × %d settings (test × every order × grouping): same oracle as collections-x-settings — rows with equal sort keys keep their first-appearance order, which an unstable sort only happens to do for small tables; non-trivial = every collection", len(specs), len(settings)), c17Replay)
+	if c.Replaying() {
+		return
+	}
+	f.Bounds["collections"] = len(specs)
+	f.Bounds["settings"] = len(settings)
+	mc.ParRange(uint64(len(specs)), 1, c.TimeUp, func(w int, lo, hi uint64) {
+		l := f.Local()
+		for i := lo; i < hi; i++ {
+			for _, st := range settings {
+				s := specs[i]
+				s.Test, s.Alpha, s.Order, s.GeoMean, s.Groups, s.SplitPkg = st.Test, st.Alpha, st.Order, st.Geo, st.Grp, st.Spl
+				var msg string
+				var amb bool
+				if p := mc.Catch(func() { msg, amb = c17Check(s) }); p != "" {
+					msg = p
+				}
+				l.Evals++
+				l.Nontrivial++
+				switch {
+				case amb:
+					l.Outcome("skipped: ambiguous")
+				case msg == "":
+					l.Outcome(fmt.Sprintf("rows=%d order=%q ok", len(s.Layout[0]), s.Order))
+				}
+				if msg != "" {
+					c.Fail(f, "legacy-table", s, msg)
+				}
+			}
+		}
+		l.Flush()
+	})
+	f.Sample(specs[0])
+	f.Done()
+}
+
 // ---- histories: results added and tables requested in any order ----
 
 var c17HistOps = []string{"a0", "a1", "a2", "b0", "b1", "T"}
@@ -898,6 +978,7 @@ func TestVerifC17(t *testing.T) {
 	c.Assume("p-values of the chosen test come from internal/stats (checked by C11/C12) on the retained values computed by the reference")
 	c.Assume("values within 1e-12 (relative) of an outlier fence are skipped: floating-point rounding of the fence legitimately decides them either way")
 	c17Tables(c)
+	c17Large(c)
 	c17Histories(c, mc.Pick(c, 5, 6))
 	if code := c.Finish(); code != 0 {
 		os.Exit(code)
